@@ -387,15 +387,57 @@ def calls_reaching(prog, b, target_names, arg_check=None):
     return out
 
 
-def residual_origin(b, t):
-    """for a `?` error exit (from_residual call): the leaves of the Result that was branched on"""
+def err_origins(b, op, depth=0, seen=None):
+    """where the ERROR side of a Result operand comes from: the fallible calls whose Err it can be. `Ok(..)` values built here contribute
+    nothing, an inner `?` (from_residual into a spliced helper's return value) contributes what IT propagated"""
+    seen = set() if seen is None else seen
+    p = C.op_place(op)
+    if p is None or p["p"] or depth > 8 or p["l"] in seen:
+        return C.trace(b, op, through_decorators=True)
+    seen.add(p["l"])
+    out = []
+    ds = b.defs().get(p["l"], [])
+    if not ds:
+        return C.trace(b, op, through_decorators=True)
+    for rec in ds:
+        if rec[0] == "assign":
+            rv = rec[3]["rv"]
+            if rv["k"] == "aggregate" and rv["agg"].get("adt") == "std::result::Result":
+                if rv["agg"].get("variant") == "Err":
+                    for o in rv["ops"]:
+                        for l in C.trace(b, o, through_decorators=True):
+                            if l.kind == "errpayload":
+                                # `Err(f(e))` with `e` the error of another Result (map_err written as a match): that Result's origins
+                                out += err_origins(b, {"k": "move", "pl": {"l": l.data["l"], "p": []}}, depth + 1, seen)
+                            else:
+                                out.append(l)
+                continue
+            if rv["k"] == "use" and C.op_place(rv["op"]) is not None and not C.op_place(rv["op"])["p"]:
+                out += err_origins(b, rv["op"], depth + 1, seen)
+                continue
+            out += C.trace(b, {"l": p["l"], "p": []}, through_decorators=True)
+        elif rec[0] == "call":
+            t = rec[2]
+            if C.is_from_residual(t):
+                out += residual_origin(b, t, depth + 1, seen)
+            elif C.is_err_decorator(t) and t["args"]:
+                out += err_origins(b, t["args"][0], depth + 1, seen)
+            else:
+                out.append(C.Leaf("call", rec[1], t))
+        else:
+            out += C.trace(b, {"l": p["l"], "p": []}, through_decorators=True)
+    return out
+
+
+def residual_origin(b, t, depth=0, seen=None):
+    """for a `?` error exit (from_residual call): where the error that is propagated here comes from"""
     out = []
     for l in C.trace(b, t["args"][0]):
         if l.kind == "errpayload":
             base = l.data["l"]
             for rec in b.defs().get(base, []):
                 if rec[0] == "call" and C.is_try_branch(rec[2]):
-                    out += C.trace(b, rec[2]["args"][0], through_decorators=True)
+                    out += err_origins(b, rec[2]["args"][0], depth, seen)
         else:
             out.append(l)
     return out
@@ -505,6 +547,44 @@ def has_param(leaves, body, name):
 
 def has_call(leaves, names):
     return any(leaf_is_call(l, names) for l in leaves)
+
+
+# the Config type as the binary crate sees it (re-exported at the library root) and as the library defines it
+CLI_CONFIG = ("txtpp::Config", "txtpp::core::execute::config::Config")
+
+
+def field_values(b, adt, field):
+    """[(bb, operand)] — every value that becomes field `field` of a value of struct `adt` in this body: stores `x.field = v` and
+    struct literals `Adt { field: v, .. }`"""
+    out = []
+    for bb, si, st in b.stmts():
+        if st["k"] != "assign":
+            continue
+        adts = adt if isinstance(adt, tuple) else (adt,)
+        if st["lhs"]["p"] and st["lhs"]["p"][-1].get("name") == field and st["lhs"]["p"][-1].get("owner") in adts:
+            if st["rv"]["k"] == "use":
+                out.append((bb, st["rv"]["op"], st))
+            else:
+                out.append((bb, None, st))
+        elif st["rv"]["k"] == "aggregate" and st["rv"]["agg"].get("adt") in adts and field in (st["rv"]["agg"].get("fields") or []):
+            out.append((bb, st["rv"]["ops"][st["rv"]["agg"]["fields"].index(field)], st))
+    for bb, t in b.calls():
+        adts = adt if isinstance(adt, tuple) else (adt,)
+        if t["dest"]["p"] and t["dest"]["p"][-1].get("name") == field and t["dest"]["p"][-1].get("owner") in adts:
+            out.append((bb, None, t))
+    return out
+
+
+def resolved_path_sites(b):
+    """[(bb, operand)]: the paths this function turns into an AbsPath — the argument of share_base, or (when a borrowing twin of
+    share_base was spliced in) the argument of make_abs whose result becomes the `p` of an AbsPath built here"""
+    out = [(bb, t["args"][1]) for bb, t in calls_to(b, ROLE["share_base"]) if len(t["args"]) > 1]
+    built = [st for bb, st in aggregates(b, ADT["AbsPath"])]
+    if built:
+        for bb, t in calls_to(b, ROLE["make_abs"]):
+            if t["args"]:
+                out.append((bb, t["args"][0]))
+    return out
 
 
 def deep_leaves(b, op, depth=4, **kw):
